@@ -6,9 +6,12 @@ import (
 	"errors"
 	"fmt"
 	"io"
+	"io/fs"
 	"reflect"
 	"runtime"
 	"strings"
+
+	"golang.org/x/net/html"
 
 	vuego "github.com/titpetric/vuego"
 	"github.com/titpetric/vuego/simrt"
@@ -16,9 +19,10 @@ import (
 
 // Engine is the long-lived system under simulation: one *Vue and one base Template over the simulated fs.
 type Engine struct {
-	FS  *SimFS
-	Tpl vuego.Template
-	Vue *vuego.Vue
+	FS   *SimFS
+	View fs.FS
+	Tpl  vuego.Template
+	Vue  *vuego.Vue
 }
 
 func harnessFuncs() vuego.FuncMap {
@@ -38,6 +42,39 @@ func harnessFuncs() vuego.FuncMap {
 	}
 }
 
+// countProc is the harness NodeProcessor: it has per-render state (PreProcess counts the element nodes of the
+// parsed template, PostProcess stamps that count on the first element of the output). If an engine failed to
+// give every render its own instance (New), the count would accumulate across renders or race between them.
+type countProc struct{ n int }
+
+func (c *countProc) New() vuego.NodeProcessor { return &countProc{} }
+
+func (c *countProc) PreProcess(nodes []*html.Node) error {
+	var walk func(n *html.Node)
+	walk = func(n *html.Node) {
+		if n.Type == html.ElementNode {
+			c.n++
+		}
+		for ch := n.FirstChild; ch != nil; ch = ch.NextSibling {
+			walk(ch)
+		}
+	}
+	for _, n := range nodes {
+		walk(n)
+	}
+	return nil
+}
+
+func (c *countProc) PostProcess(nodes []*html.Node) error {
+	for _, n := range nodes {
+		if n.Type == html.ElementNode {
+			n.Attr = append(n.Attr, html.Attribute{Key: "data-pp", Val: fmt.Sprint(c.n)})
+			break
+		}
+	}
+	return nil
+}
+
 // NewEngine constructs the engine of a run over fs.
 func NewEngine(e EngineSpec, sfs *SimFS) *Engine {
 	// construction reads (theme.yml, data/*.yml, components/) are attributed to a reserved operation index:
@@ -54,7 +91,10 @@ func NewEngine(e EngineSpec, sfs *SimFS) *Engine {
 	if e.Components {
 		opts = append(opts, vuego.WithComponents())
 	}
-	eng := &Engine{FS: sfs}
+	if e.Proc {
+		opts = append(opts, vuego.WithProcessor(&countProc{}))
+	}
+	eng := &Engine{FS: sfs, View: view}
 	eng.Tpl = vuego.NewFS(view, opts...)
 	if e.BaseFill != nil {
 		eng.Tpl.Fill(BuildData(*e.BaseFill))
@@ -178,6 +218,12 @@ func (e *Engine) Exec(idx int, op OpSpec, shared any) (out Outcome) {
 		err = e.Vue.Render(w, op.File, data)
 	case "Vue.RenderFragment":
 		err = e.Vue.RenderFragment(w, op.File, data)
+	case "Vue.RenderNodes": // the caller parses, the engine evaluates and serialises
+		var nodes []*html.Node
+		nodes, err = vuego.NewLoader(e.View).LoadFragment(op.File)
+		if err == nil {
+			err = e.Vue.RenderNodes(w, nodes, data)
+		}
 	case "Load.Render":
 		err = e.Tpl.Load(op.File).Fill(data).Render(ctx, w)
 	case "RenderFile":
